@@ -158,3 +158,32 @@ Theorem index_rejects_decreasing d h ff mn av mx th items rest j :
             table_error e.
 Proof. intros Hwi Hd Hwt Hj Hlt. eapply index_rejects_bad_row; eauto. Qed.
 
+
+(* ---------- WriteTo goes by the sizes: the Start fields do not enter the encoding ---------- *)
+
+Lemma table_items_ignores_start : forall cs cs' off,
+  map (fun c => (c_id c, c_size c)) cs = map (fun c => (c_id c, c_size c)) cs' ->
+  table_items off cs = table_items off cs'.
+Proof.
+  induction cs as [|c r IH]; intros cs' off E; destruct cs' as [|c' r']; try discriminate; [reflexivity|].
+  cbn [map] in E. inversion E as [[Hid Hsz HE]]. cbn [table_items]. rewrite Hid, Hsz. f_equal. now apply IH.
+Qed.
+
+Theorem encode_index_ignores_start i j :
+  ix_flags i = ix_flags j -> ix_min i = ix_min j -> ix_avg i = ix_avg j -> ix_max i = ix_max j ->
+  map (fun c => (c_id c, c_size c)) (ix_chunks i) = map (fun c => (c_id c, c_size c)) (ix_chunks j) ->
+  encode_index i = encode_index j.
+Proof.
+  intros Hf Hm Ha Hx Hc. unfold encode_index. rewrite Hf, Hm, Ha, Hx.
+  now rewrite (table_items_ignores_start _ _ 0 Hc).
+Qed.
+
+(* row k of the written table ends at the sum of the sizes of rows 0..k (64-bit arithmetic) *)
+Lemma table_items_offsets : forall cs off k,
+  (k < length cs)%nat ->
+  fst (nth k (table_items off cs) (0%N, [])) = fold_left (fun a c => add64 a (c_size c)) (firstn (S k) cs) off.
+Proof.
+  induction cs as [|c r IH]; intros off k Hk; [cbn in Hk; lia|].
+  cbn [table_items]. destruct k as [|k]; [reflexivity|].
+  cbn [nth firstn fold_left]. apply IH. cbn [length] in Hk. lia.
+Qed.
